@@ -336,7 +336,22 @@ Definition sb_fuel (msgs : list (list (list Z))) (ks : list Z) : nat :=
 
 Inductive case :=
 | Codec (mms msl : Z) (segs : list (list Z))
+| CodecAll (mms msl : Z) (stream : list Z)      (* every segmentation of the stream into non-empty reads *)
 | Send (max_chunks : Z) (msgs : list (list (list Z))) (ks : list Z).
+
+(* all 2^(n-1) ways to cut a stream of n bytes into non-empty consecutive segments *)
+Fixpoint segmentations (l : list Z) : list (list (list Z)) :=
+  match l with
+  | [] => [[]]
+  | x :: r =>
+      match r with
+      | [] => [[[x]]]
+      | _ => flat_map (fun sg => match sg with
+                                 | s :: ss => [[x] :: s :: ss; (x :: s) :: ss]
+                                 | [] => [[[x]]]
+                                 end) (segmentations r)
+      end
+  end.
 
 Definition SEP : Z := -7.
 Definition SAME : Z := -8.
@@ -361,6 +376,14 @@ Definition run (c : case) : list Z :=
       let a := render (feed_all o segs) in
       let b := render (drain_all o (concat segs)) in
       if list_eqb a b then SAME :: a else DIFF :: a ++ [SEP] ++ b
+  | CodecAll mms msl stream =>
+      (* the whole-stream result, then how many segmentations were tried and how many of them gave
+         a different result *)
+      let o := mk_cfg mms msl in
+      let ref := render (drain_all o stream) in
+      let results := map (fun sg => render (feed_all o sg)) (segmentations stream) in
+      ref ++ [SEP; Z.of_nat (length results);
+              Z.of_nat (length (filter (fun r => negb (list_eqb r ref)) results))]
   | Send mc msgs ks => sb_run (sb_fuel msgs ks) (sb_init mc) msgs ks
   end.
 
@@ -394,6 +417,9 @@ Fixpoint accepted (mc : Z) (msgs : list (list (list Z))) : list (list (list Z)) 
 Definition oracle (c : case) (out : list Z) : bool :=
   match c with
   | Codec mms msl segs => match out with x :: _ => x =? SAME | [] => false end
+  | CodecAll mms msl stream =>
+      (* at least one segmentation was tried and none gave a result different from the whole stream's *)
+      (last out 1 =? 0) && (0 <? last (removelast out) 0)
   | Send mc msgs ks =>
       let body := removelast out in
       let fin := last out 0 in
@@ -412,5 +438,6 @@ Definition bytes_ok (l : list Z) : bool := forallb is_byte l.
 Definition valid (c : case) : Prop :=
   match c with
   | Codec mms msl segs => 0 <= mms /\ 0 <= msl /\ forallb bytes_ok segs = true
+  | CodecAll mms msl stream => 0 <= mms /\ 0 <= msl /\ bytes_ok stream = true
   | Send mc msgs ks => True
   end.
